@@ -289,7 +289,7 @@ theorem user_bounds (env : List Entry) (toks : List PTok) (sp : SearchPos) (mi p
     rw [htrim] at htrim'
     cases htrim'
     have htl : tail.length + 1 ≤ toks.length - (p + 1) := by
-      have := trimStart_length_le (toks.drop (p + 1))
+      have := trimStartAll_length_le (toks.drop (p + 1))
       rw [htrim] at this
       simpa using this
     refine ⟨by omega, by omega, ?_⟩
@@ -427,6 +427,25 @@ theorem trimStart_blanks (blanks rest : List PTok) (h : ∀ t ∈ blanks, t.tok 
     rw [List.cons_append, List.dropWhile_cons]
     simp only [hb, if_true]
     exact this
+
+/-- `trim_whitespace_and_endlines_start`: white space of every kind (blanks, comments, line ends) in front of a token
+that is not white space is removed, the token stays -/
+theorem trimStartAll_whitespace (blanks rest : List PTok) (h : ∀ t ∈ blanks, t.tok.isWhitespace = true) (t : PTok)
+    (ht : t.tok.isWhitespace = false) : trimStartAll (blanks ++ t :: rest) = t :: rest := by
+  induction blanks with
+  | nil => simp [trimStartAll, List.dropWhile, ht]
+  | cons x xs ih =>
+    have hb : x.tok.isWhitespace = true := h x (by simp)
+    have := ih (fun y hy => h y (by simp [hy]))
+    unfold trimStartAll at this ⊢
+    rw [List.cons_append, List.dropWhile_cons]
+    simp only [hb, if_true]
+    exact this
+
+/-- the analogue of `trimStart_blanks` for `trimStartAll` -/
+theorem trimStartAll_blanks (blanks rest : List PTok) (h : ∀ t ∈ blanks, t.tok = .ws) (t : PTok)
+    (ht : t.tok.isWhitespace = false) : trimStartAll (blanks ++ t :: rest) = t :: rest :=
+  trimStartAll_whitespace blanks rest (fun x hx => by rw [h x hx]; rfl) t ht
 
 theorem splice_middle (before mid after out : List PTok) :
     splice (before ++ mid ++ after) before.length ((before ++ mid ++ after).length - after.length) out =
